@@ -12,7 +12,7 @@ THEOREMS = [
     'Px.Ws.C16_roundtrip', 'Px.Ws.C16_mask_involutive', 'Px.Ws.C16_rfc',
     'Px.Ws.C16_reject_wide_opcode', 'Px.Sha1.C16_accept', 'Px.Sha1.C16_accept_rfc_example',
     'Px.Ws.C16_reset_forgets', 'Px.Ws.C16_loop', 'Px.Ws.C16_loop_close', 'Px.Ws.C16_loop_total',
-    'Px.Ws.C16_echo', 'Px.Ws.C16_text', 'Px.Ws.C16_no_reset_stale_mask_witness',
+    'Px.Ws.C16_echo', 'Px.Ws.C16_text', 'Px.Ws.C16_build_idempotent', 'Px.Ws.C16_stale_length_witness', 'Px.Ws.C16_no_reset_stale_mask_witness',
 ]
 RULE = ('rt: frame (flags, opcode, masked, key, payload spec, tail) built and parsed back by the real '
         'WebsocketFrame and by the model; parse: arbitrary byte strings; accept: keys; distinct by canonical '
